@@ -16,7 +16,7 @@ MANIFEST = {
         ref="§5 C02, §7 F10"),
 }
 
-THEOREMS = ["Uspsc.C02_reachable_safe", "Uspsc.C02_chain", "Uspsc.C02_alloc_within_cap", "Uspsc.C02_throw_iff",
+THEOREMS = ["Uspsc.C02_reachable_safe", "Uspsc.C02_chain", "Uspsc.C02_trace_fifo", "Uspsc.ti_step", "Uspsc.C02_alloc_within_cap", "Uspsc.C02_throw_iff",
             "Uspsc.C02_null", "Uspsc.C02_shrink_iff", "Uspsc.C02_null_means_at_max_partial",
             "Uspsc.C02_non_pow2_max_refuses", "Uspsc.relaxed_next_unsafe", "Uspsc.no_reread_unsafe",
             "Uspsc.ustep_inv", "Uspsc.ustep_safe",
@@ -24,6 +24,10 @@ THEOREMS = ["Uspsc.C02_reachable_safe", "Uspsc.C02_chain", "Uspsc.C02_alloc_with
             "Obligations.extraction_complete"]
 MODULES = ["QuillModel.Props.C02"]
 OBLIG = ["QuillModel.Obligations.UQueue", "QuillModel.Obligations.Queue"]
+
+# bundle M (tools/props/math_thm_M.py): MathUtilities.h + constructor / doubling loop / shrink capacities, attached to C02
+import props.math_thm_M as _mM
+_mM.attach("C02", THEOREMS, MODULES, OBLIG)
 
 KNOWN_CLASS = "class=non-pow2-max"
 
@@ -135,6 +139,8 @@ def run(prop, tier):
         if ns not in ("-", u["nextStoreGrow"]) and ns not in ("-", u["nextStoreShrink"]) and ns != "mixed":
             ps["broken"].append("extraction disagrees with run-time order for nextStore: observed %s" % ns)
 
+    _mM.stream(ck, prop, tier, ps)   # arithmetic / constructor stream of bundle M
+
     if st["known_hits"]:
         listed = [f for f in vlib.known_findings(prop) if f.get("id") == "F10"]
         if listed:
@@ -193,6 +199,8 @@ def run(prop, tier):
 
 
 def replay(prop, path):
+    if _mM.is_math_replay(path):
+        return _mM.replay(prop, path)
     ok, hbin, log = vlib.build_harness("h1_uspsc", ["h1_uspsc.cpp"], extra_flags=["-fno-access-control"])
     if not ok:
         print(log)
